@@ -65,6 +65,16 @@ Theorem evicts_lru_first : forall m t0 its g w cl ds r w' gk kept,
 Proof. exact lru_evict_l. Qed.
 Print Assumptions evicts_lru_first.
 
+(* ---- put evicts only when the limit forces it: afterwards the cache holds the new entry and as
+   many of the other entries as fit *)
+Theorem put_evicts_only_when_full : forall m t0 its g w key v ds r w',
+  mono its -> lru_reach m t0 its g w -> nonneg ds ->
+  wstep lru_step (Call (Put key v) ds) w = Ok (Some r, w') ->
+  zlen (l_dict (fst w')) =
+  Z.min (l_max (fst w)) (zlen (l_dict (fst w)) - (if has (fst w) key then 1 else 0) + 1).
+Proof. exact lru_put_size_l. Qed.
+Print Assumptions put_evicts_only_when_full.
+
 (* ---- counters: hits / misses are the numbers of successful / failed lookups since the last
    reset; get_hits_for_key is the number of successful lookups of the stored answer *)
 Theorem counters_exact_lru : forall m t0 its g w, mono its -> lru_reach m t0 its g w ->
